@@ -149,6 +149,9 @@ func runTrace(env *core.Env, t Trace, verbose bool) bool {
 		case "alt_differs": // main branch and alternative branch end differently (exit code of the last step or observable state)
 			last := snaps[len(t.Steps)]
 			ok = last.res.Exit != altLast.Exit || last.obs.Norm(nil) != altObs.Norm(nil)
+		case "alt_exit_differs": // the last step of the main branch and of the alternative branch exit differently (success vs failure)
+			last := snaps[len(t.Steps)]
+			ok = (last.res.Exit == 0) != (altLast.Exit == 0)
 		case "alt_differs_by_title": // like alt_differs, but ids are random in both branches: compare through the title map
 			last := snaps[len(t.Steps)]
 			ok = last.obs.Fail != "" || last.obs.Norm(last.obs.TitleMap()) != altObs.Norm(altObs.TitleMap())
